@@ -40,7 +40,10 @@ func (vc *VC) stdIntrinsic(fr *Frame, fn *ssa.Function, name string, args []SV, 
 	case "sync/atomic.AddUint64", "sync/atomic.AddInt64", "sync/atomic.AddInt32", "sync/atomic.AddUint32":
 		lv := vc.lvalOfSV(args[0], fn.Signature.Params().At(0).Type())
 		vc.nilCheck(lv, "atomic")
-		vc.atomicAccess(lv)
+		if vc.isShared(lv) {
+			// a cell shared between goroutines: the result is whatever the interleaving gives
+			return []SV{vc.freshValue(lv.Typ, "atomic")}, true
+		}
 		cur := vc.load(lv)
 		nv := vc.def(vc.eng.layoutOf(lv.Typ).L[0].Sort, "(bvadd "+cur.L[0]+" "+args[1].L[0]+")")
 		vc.store(lv, scalar(nv))
@@ -48,21 +51,29 @@ func (vc *VC) stdIntrinsic(fr *Frame, fn *ssa.Function, name string, args []SV, 
 	case "sync/atomic.LoadUint64", "sync/atomic.LoadInt64", "sync/atomic.LoadInt32", "sync/atomic.LoadUint32":
 		lv := vc.lvalOfSV(args[0], fn.Signature.Params().At(0).Type())
 		vc.nilCheck(lv, "atomic")
-		vc.atomicAccess(lv)
+		if vc.isShared(lv) {
+			return []SV{vc.freshValue(lv.Typ, "atomic")}, true
+		}
 		return []SV{vc.load(lv)}, true
 	case "sync/atomic.StoreUint64", "sync/atomic.StoreInt64", "sync/atomic.StoreInt32", "sync/atomic.StoreUint32":
 		lv := vc.lvalOfSV(args[0], fn.Signature.Params().At(0).Type())
 		vc.nilCheck(lv, "atomic")
-		vc.atomicAccess(lv)
+		if vc.isShared(lv) {
+			return nil, true
+		}
 		vc.store(lv, args[1])
 		return nil, true
 	case "(*sync/atomic.Bool).Load":
 		lv := vc.lvalOfSV(args[0], fn.Signature.Recv().Type())
-		vc.atomicAccess(lv)
+		if vc.isShared(lv) {
+			return []SV{vc.freshValue(lv.Typ, "atomic")}, true
+		}
 		return []SV{vc.load(lv)}, true
 	case "(*sync/atomic.Bool).Store":
 		lv := vc.lvalOfSV(args[0], fn.Signature.Recv().Type())
-		vc.atomicAccess(lv)
+		if vc.isShared(lv) {
+			return nil, true
+		}
 		vc.store(lv, args[1])
 		return nil, true
 	// ---- time ----
